@@ -144,6 +144,9 @@ package ice
 
 //@ func (*Agent).handleInboundBindingSuccess
 //@   props C02
+//@   ghostvar purged bool = false
+//@   site call invalidatePendingBindingRequests#1 ghost purged := true
+//@   ensures expired-transactions-are-purged-before-matching: purged
 //@   modifies fam:H_ice.Agent.pendingBindingRequests*, fam:H_ice.bindingRequest.*, fam:E_*
 //@   ensures result0 ==> result1 != nil && fresh(result1)
 //@   ensures no-match-no-request: !result0 ==> result1 == nil
